@@ -13,7 +13,7 @@ PROP = {'technique': 'property-based testing (rapid) of the rate negotiation lat
  'level_note': 'Trusts the reference function (v10RefServer/v10RefClient), rapid, and the reflection adapter v10ReadCC (a renamed '
                'internal field makes the check inconclusive, never a violation). "Enforced on the wire" is observed at the controller '
                'the connection holds, not by measuring throughput (C11 covers controller -> pacing).',
- 'rule': 'client MaxTx/MaxRx in {0,1,65535,65536,65537,1e6,1e9,2^62-1,2^62,2^63-1,2^63,2^64-1}, server MaxTx/MaxRx in the same set without the two '
+ 'rule': 'client MaxTx/MaxRx in {0,1 (MaxTx only),65535,65536,65537,1e6,1e9,2^62-1,2^62,2^63-1,2^63,2^64-1}, server MaxTx/MaxRx in the same set without the two '
          'sub-floor values (only configurations fill()/verifyAndFill() accept are generated), ignore-client-bandwidth 1/4, congestion '
          'type in {"",bbr,BBR,reno,Reno} x BBR profile in {"",standard,conservative,aggressive + case variants} on each side, '
          'DisableLossCompensation on/off on each side, UDP on/off. Header cells: Hysteria-CC-RX missing, "", abc, -1, 1e9, 2^64, " 5", '
@@ -29,8 +29,8 @@ PROP = {'technique': 'property-based testing (rapid) of the rate negotiation lat
            {'name': 'TestVerifC10_Regress_RateAbove2p63', 'unit': SRV, 'kind': 'plain',
             'timeout_quick': 300, 'timeout_thorough': 300},
            {'name': 'TestVerifC10_Negotiate', 'unit': SRV, 'quick': 150, 'shards': 2, 'thorough': 1500, 'shards_thorough': 12,
-            'timeout_quick': 600, 'timeout_thorough': 3600},
+            'timeout_quick': 600, 'timeout_thorough': 1500},
            {'name': 'TestVerifC10_RawClientHeader', 'unit': SRV, 'quick': 120, 'shards': 1, 'thorough': 1000, 'shards_thorough': 4,
-            'timeout_quick': 600, 'timeout_thorough': 3600},
+            'timeout_quick': 600, 'timeout_thorough': 1500},
            {'name': 'TestVerifC10_FakeServerHeader', 'unit': SRV, 'quick': 120, 'shards': 1, 'thorough': 1000, 'shards_thorough': 4,
-            'timeout_quick': 600, 'timeout_thorough': 3600}]}
+            'timeout_quick': 600, 'timeout_thorough': 1500}]}
